@@ -8,6 +8,8 @@ import LncModel.Chunk
 import LncModel.Endpoint
 import LncModel.Timeout
 import LncModel.Handshake
+import LncModel.Mnemonic
+import LncModel.Sid
 /-
   Line-protocol driver: one operation per input line, one canonical result per
   output line.  Imports model files only (no Mathlib, no proofs) so it links as
@@ -140,6 +142,37 @@ def pureStep (toks : List String) : String :=
       | .err e => "err " ++ e
       | .panic _ => "panic"
     | _, _, _, _, _ => "bad-op"
+  | "mn.towords" :: [hex] =>
+    match bytesOfHex hex with
+    | some e => " ".intercalate ((Lnc.Mailbox.Mnemonic.toWords e).map toString)
+    | none => "bad-op"
+  | "mn.toentropy" :: ws =>
+    match ws.mapM String.toNat? with
+    | some l => hexOrDash (Lnc.Mailbox.Mnemonic.toEntropy l)
+    | none => "bad-op"
+  | ["sid.getsid", hex, dir] =>
+    match bytesOfHex hex, parseBool dir with
+    | some b, some d => hexOrDash (Lnc.Mailbox.Sid.getSID b d)
+    | _, _ => "bad-op"
+  | "sid.pattern" :: cfgs =>
+    -- each cfg: local,remote|-,entropyhex ; output: canonical labels of equal identifiers
+    let terms := cfgs.mapM fun c =>
+      match c.splitOn "," with
+      | [l, r, e] =>
+        match l.toNat?, bytesOfHex e with
+        | some l, some e =>
+          if r = "-" then some (Lnc.Mailbox.Sid.sidPre l none e)
+          else r.toNat?.map fun r => Lnc.Mailbox.Sid.sidPre l (some r) e
+        | _, _ => none
+      | _ => none
+    match terms with
+    | some ts =>
+      let labels := ts.foldl (fun (acc : List Lnc.Mailbox.Sid.Term × List Nat) t =>
+        match acc.1.idxOf? t with
+        | some i => (acc.1, acc.2 ++ [i])
+        | none => (acc.1 ++ [t], acc.2 ++ [acc.1.length])) ([], [])
+      " ".intercalate (labels.2.map toString)
+    | none => "bad-op"
   | ["q.mks", n] => (n.toNat?).elim "bad-op" fun n => toString (mkS n)
   | _ => "bad-op"
 
